@@ -609,6 +609,10 @@ class Interp:
             if r is not NotImplemented: return r
         if isinstance(a, SymVal) or isinstance(b, SymVal): raise Outside(f'binop {name} on {type(a).__name__},{type(b).__name__}')
         if isinstance(a, z3.ExprRef) or isinstance(b, z3.ExprRef):
+            if isinstance(a, z3.BoolRef): a = z3.If(a, 1, 0)
+            if isinstance(b, z3.BoolRef): b = z3.If(b, 1, 0)
+            if isinstance(a, bool): a = int(a)
+            if isinstance(b, bool): b = int(b)
             if name == 'FloorDiv': return _z3_floordiv(a, b)
             if name == 'Mod': return a % b
             if name in ('Add', 'Sub', 'Mult'): return _BINOPS[op](a, b)
